@@ -30,6 +30,9 @@ if TYPE_CHECKING:
     from .match import JSONPathMatch
 
 
+RE_CANONICAL_INT = re.compile(r"(?:0|-?[1-9][0-9]*)\Z", re.ASCII)
+
+
 class _Undefined:
     def __str__(self) -> str:
         return "<jsonpath.pointer.UNDEFINED>"
@@ -108,17 +111,16 @@ class JSONPointer:
         )[1:]
 
     def _index(self, s: str) -> Union[str, int]:
-        # Reject non-zero ints that start with a zero.
-        if len(s) > 1 and s.startswith("0"):
+        # Only canonical decimal integers are array indices. Anything else
+        # `int()` would accept ("+1", " 1", "1_0", "01", non-ASCII digits) is
+        # a member name.
+        if not RE_CANONICAL_INT.match(s):
             return s
 
-        try:
-            index = int(s)
-            if index < self.min_int_index or index > self.max_int_index:
-                raise JSONPointerIndexError("index out of range")
-            return index
-        except ValueError:
-            return s
+        index = int(s)
+        if index < self.min_int_index or index > self.max_int_index:
+            raise JSONPointerIndexError("index out of range")
+        return index
 
     def _getitem(self, obj: Any, key: Any) -> Any:  # noqa: PLR0912
         try:
